@@ -75,7 +75,7 @@ PROPS["C13"] = {
         KERNEL, HARNESS,
         "statements in lean/Ogen/Props/C13.lean; model IntRT (digit loop of FormatInt/FormatUint, syntax+range of ParseInt/ParseUint, FormatBool/ParseBool) hand-written from strconv's documented behaviour; tie = line-by-line comparison with conv.Int64ToString/Uint64ToString and conv.ToInt*/ToUint* (all widths) on boundary/random values and hostile strings",
         "model UnixT (time.Unix normalisation, UnixMilli/UnixMicro with Go's truncating / and %, the four accessors) hand-written; tie = conv.ToUnix*/Unix*ToString on boundary and random int64 values compared line by line ((sec, nsec) of the parsed instant and the text it prints back)",
-        "the fact translator harness/cmd/extract: Ogen/Generated/Facts_float.lean (verb, precision, bit size and value type of every FormatFloat/AppendFloat call in conv and json) regenerated on every run; float_spec_ok is stated over it",
+        "the fact translator harness/cmd/extract: Ogen/Generated/Facts_float.lean — for every float text helper of conv and json the unique (verb, precision, bit size) whose strconv.FormatFloat reproduces the helper of the working tree (linked into the translator) on probe values that tell all candidates apart — regenerated on every run; float_spec_ok is stated over it",
         "generated code: one query and one header parameter per declared format through a regenerated client and server — the text on the wire is compared with the text the format prescribes (computed with the standard library in the harness), the value that arrives with the value sent",
         "NOT proved (standard-library contracts, exercised on the implementation only): ParseFloat∘FormatFloat(-1, bits), time.Parse∘Format for the date/time/date-time layouts, time.ParseDuration∘Duration.String and ogen's formatDuration port, uuid.Parse∘String and ogen's hexEncode, netip/MAC/url round trips",
     ],
@@ -163,7 +163,7 @@ PROPS["C15"] = {
     "trusted_base": [
         KERNEL, HARNESS, GENCHECK,
         "statements in lean/Ogen/Props/C15.lean; model Stages.handle hand-written from gen/_template/handlers.tmpl and ogenerrors/handler.go; tie = requests that fail at a chosen stage (and every handler outcome) sent to a regenerated server, (status, handler-invoked) compared with the model line by line",
-        "the fact translator harness/cmd/extract (text level): Ogen/Generated/Facts_tmpl.lean — order of the stage markers in handlers.tmpl, the number of `return` statements after each failing stage, the optional-body shortcut of request_decode.tmpl; Facts_errors.lean — the status each ogenerrors type reports and the cases of ErrorCode (go/ast); facts_stage_order, facts_optional_body and facts_status_codes are stated over them",
+        "the fact translator harness/cmd/extract (text level): Ogen/Generated/Facts_tmpl.lean — order of the stage markers in handlers.tmpl, the number of `return` statements after each failing stage, the optional-body shortcut (read with go/ast off the Go the generator of the working tree writes for a probe document: the && conjuncts of its condition, normalised); Facts_errors.lean — the status each ogenerrors type reports and the cases of ErrorCode (go/ast); facts_stage_order, facts_optional_body and facts_status_codes are stated over them",
         "further regenerated servers: conjunctive and alternative security requirements, an optional request body with missing / wrong content types, parameter shapes without serialization (must be refused by the generator; a server generated anyway is driven), stage failures with convenient errors active",
         "NOT proved: that the decoders themselves never panic on arbitrary bytes (jx, net/http, generated decoders) — checked on the implementation with byte-level mutations of valid requests, hand-built *http.Request values that bypass URL validation and random bodies; the over-acceptance oracle of that stream is a hand-written reference for one operation",
     ],
@@ -209,7 +209,7 @@ PROPS["C20"] = {
     "facts": ["cli"],
     "trusted_base": [
         KERNEL, HARNESS,
-        "the fact translator harness/cmd/extract (go/ast over cmd/ogen/main.go): Ogen/Generated/Facts_cli.lean is regenerated on every run — source order of the calls in generate() and cleanDir's literal suffix/prefix lists; theorems facts_order_ok, facts_filter_eq, facts_no_recursive_remove are stated over it",
+        "the fact translator harness/cmd/extract: Ogen/Generated/Facts_cli.lean is regenerated on every run — source order of the calls in generate() (go/ast over cmd/ogen/main.go, same-file helpers inlined at their call site) and cleanDir's suffix/prefix lists (observed: the built binary cleans a probe directory of 11 candidate prefixes × 12 candidate suffixes; the removed set must be a product); theorems facts_order_ok, facts_filter_eq, facts_no_recursive_remove are stated over it",
         "statements in lean/Ogen/Props/C20.lean; model Cli.run/cleanDir/writeFiles (Ogen/CliStages_proof.lean) hand-written; second tie = the built cmd/ogen binary run for 13 stages × 5 target states × {--clean, no --clean}, top-level outcome compared with the model, recursive snapshots checked on the implementation",
         "NOT modelled: OS semantics (permissions, read-only files, partial writes after writing started), what gen.NewGenerator itself writes (expand: — known finding K6)",
     ],
@@ -243,7 +243,7 @@ PROPS["C08"] = {
     "facts": ["regex"],
     "trusted_base": [
         KERNEL, HARNESS,
-        "the fact translator harness/cmd/extract: Ogen/Generated/Facts_regex.lean (whitespaceChars, re2Dot, the [] / [^] replacement literals of scanBracket) regenerated from ogenregex/convert.go on every run; facts_whitespace, facts_dot, facts_any_class, facts_empty_class are stated over it",
+        "the fact translator harness/cmd/extract: Ogen/Generated/Facts_regex.lean (whitespaceChars, re2Dot, the [] / [^] replacement texts: what Convert of the working tree's ogenregex, linked into the translator, answers for the one-token patterns \\s, \\S, ., [], [^]) regenerated on every run; facts_whitespace, facts_dot, facts_any_class, facts_empty_class are stated over it",
         "statements in lean/Ogen/Props/C08.lean; the ECMA-262 side (ecmaDenote: WhiteSpace = TAB VT FF ZWNBSP + category Zs of Unicode 15, LineTerminator, ASCII \\d \\w, code-point `.`) and the RE2 side (re2Denote) are written by hand from the two specifications; Go's regexp atom semantics are modelled, not verified — tied by running every emitted atom against a code-point grid (thorough tier: every code point of planes 0–2 and every 16th above)",
         "model Conv.convert hand-written from ogenregex/convert.go; tie = output text compared with the real Convert on random token sequences incl. malformed ones; end-to-end tie = ogenregex.Compile(p).MatchString(s) compared with accepts (ecmaDenote e) s on every subject of length ≤ L over a 17-symbol alphabet; regexp2 is a second opinion in the failing-input search only where it is itself ECMA-262",
         "further ties on the implementation: denotation of every \\cX and legacy octal escape; engine agreement (a pattern of the sub-fragment both engines implement faithfully, forced onto regexp2 by a look-around that cannot fail, answers as its converted form); generated validators (a regenerated server accepts a string member exactly when ogenregex.Compile(pattern).MatchString does, incl. patterns that look like match-all and subjects with line terminators)",
